@@ -528,8 +528,14 @@ class Evaluator(Folder):
             return False
         k = next((c for c in self.repo.all_classes().values() if c.name == name), None)
         if k is None:
-            stdlib = {"KeyError": ["LookupError"], "IndexError": ["LookupError"], "ZeroDivisionError": ["ArithmeticError"], "OverflowError": ["ArithmeticError"], "UnicodeEncodeError": ["UnicodeError", "ValueError"], "UnicodeDecodeError": ["UnicodeError", "ValueError"]}
-            return any(b in bases for b in stdlib.get(name, []))
+            import builtins as _b
+            import decimal as _dec
+
+            # an exception class of the host language: its own hierarchy decides
+            exc = getattr(_b, name, None) or getattr(_dec, name, None)
+            if isinstance(exc, type) and issubclass(exc, BaseException):
+                return any(c.__name__ in bases for c in exc.__mro__)
+            return False
         for b in self.repo.mro(k):
             nm = getattr(b, "name", None) or getattr(b, "dotted", "").split(".")[-1]
             if nm in bases:
@@ -1103,9 +1109,31 @@ def _dispatch_target(ctx: Any, fn: Any, args: Sequence[Any]) -> Any:
     return best[1]
 
 
-def call_fn(ctx: Any, fn: Any, args: Sequence[Any], kwargs: Optional[Dict[str, Any]] = None, hook: Any = None, keep: Sequence[str] = ()) -> Any:
+class _RawFunction(Abstract):
+    """a module-level function as the plain function its decorators receive"""
+
+    def __init__(self, ctx: Any, fn: Any, hook: Any, keep: Sequence[str]):
+        self.ctx, self.fn, self.hook, self.keep = ctx, fn, hook, keep
+        self.__dict__["__name__"] = fn.name
+
+    def __call__(self, *args: Any, **kwargs: Any) -> Any:
+        return call_fn(self.ctx, self.fn, list(args), kwargs, hook=self.hook, keep=self.keep, raw=True)
+
+
+def call_fn(ctx: Any, fn: Any, args: Sequence[Any], kwargs: Optional[Dict[str, Any]] = None, hook: Any = None, keep: Sequence[str] = (), raw: bool = False) -> Any:
     """abstractly evaluate one repository function (private helpers expanded, `keep` names left to the hook) on the arguments"""
     fn = _dispatch_target(ctx, fn, args)
+    if not raw and fn.cls is None and getattr(fn, "parent", None) is None:
+        decos = nontrivial_decorators(fn)
+        if decos:
+            # the name is bound to what the decorators (evaluated from source) make of the function
+            from .fold import _CURRENT, call_value
+
+            v: Any = _RawFunction(ctx, fn, hook, tuple(keep))
+            f0 = Folder({}, ctx.repo, fn.module, None, hook)
+            for d in reversed(decos):
+                v = call_value(f0, Folder({}, ctx.repo, fn.module, None, hook).fold(d), [v])
+            return call_value(_CURRENT[-1] if _CURRENT else f0, v, list(args), dict(kwargs or {}))
     node = ctx.inl(fn, keep=tuple(keep))
     a = node.args
     params = [x.arg for x in a.posonlyargs + a.args]
